@@ -216,20 +216,23 @@ type Sim struct {
 	Problems  []string // harness-level trouble (stuck actor, unknown goroutine)
 	Stranded  []string // callers that blocked although the engine was force-closed
 
-	calls   []*callState
-	actors  map[string]*actor
-	byGoid  sync.Map // goid -> *actor
-	msgs    chan msg
-	schedG  int64
-	nNotif  int
-	nCloser int
-	fclosed bool // reqCtx cancelled
-	eclosed bool
-	curAcks []int64
-	clk     *fclock
-	Stepped bool
-	Timeout time.Duration
-	deliv   []*delivery
+	calls    []*callState
+	actors   map[string]*actor
+	byGoid   sync.Map // goid -> *actor
+	msgs     chan msg
+	schedG   int64
+	nNotif   int
+	nCloser  int
+	fclosed  bool // reqCtx cancelled
+	eclosed  bool
+	curAcks  []int64
+	clk      *fclock
+	Stepped  bool
+	Timeout  time.Duration
+	FreeHook func(point string, key int64) // free-running mode: called at every scheduling point, never parks
+	Panics   []string                      // panics recovered from NotifyResult / NotifyError / Do
+	pmu      sync.Mutex
+	deliv    []*delivery
 }
 
 type delivery struct {
@@ -470,6 +473,9 @@ func (s *Sim) hook(point string, key int64) {
 		return
 	}
 	if !s.Stepped {
+		if s.FreeHook != nil {
+			s.FreeHook(point, key)
+		}
 		return
 	}
 	a := s.actorHere()
@@ -526,24 +532,42 @@ func (s *Sim) spawnNotify(d *delivery) *actor {
 	a := &actor{name: fmt.Sprintf("n%d", d.idx), kind: 'n', idx: d.idx, msgID: d.msgID, isErr: d.isErr}
 	s.spawn(a, func() {
 		ret := int64(0)
-		if d.isErr {
-			s.Eng.NotifyError(d.msgID, &RPCErr{Code: d.code})
-		} else {
-			var b bin.Buffer
-			if !d.bad {
-				b.PutLong(d.val)
+		defer func() {
+			// a panic inside the engine must not kill the harness: it is an oracle verdict
+			if r := recover(); r != nil {
+				s.notePanic(fmt.Sprintf("delivery %d (msg id %d): %v", d.idx, d.msgID, r))
+				s.msgs <- msg{a: a, finish: true, ev: Ev{K: "NFinish", A: d.idx, O: 3}}
 			}
-			if err := s.Eng.NotifyResult(d.msgID, &b); err != nil {
-				if strings.Contains(err.Error(), "handler already called") {
-					ret = 1
-				} else {
-					ret = 2
-				}
-			}
-		}
+		}()
+		ret = s.deliver(d)
 		s.msgs <- msg{a: a, finish: true, ev: Ev{K: "NFinish", A: d.idx, O: ret}}
 	})
 	return a
+}
+
+// deliver runs NotifyResult / NotifyError for d and projects the returned error.
+func (s *Sim) deliver(d *delivery) int64 {
+	if d.isErr {
+		s.Eng.NotifyError(d.msgID, &RPCErr{Code: d.code})
+		return 0
+	}
+	var b bin.Buffer
+	if !d.bad {
+		b.PutLong(d.val)
+	}
+	if err := s.Eng.NotifyResult(d.msgID, &b); err != nil {
+		if strings.Contains(err.Error(), "handler already called") {
+			return 1
+		}
+		return 2
+	}
+	return 0
+}
+
+func (s *Sim) notePanic(what string) {
+	s.pmu.Lock()
+	s.Panics = append(s.Panics, what)
+	s.pmu.Unlock()
 }
 
 func (s *Sim) spawnCloser(force bool) *actor {
